@@ -161,6 +161,7 @@ def run_replay(chk, tab, cases, rnd, limit, nvar):
     for k in sorted(by):
         chosen += by[k] if len(by[k]) <= per else rnd.sample(by[k], per)
     forms, shapes = {}, {}
+    shown = 0
     for i, case in enumerate(chosen):
         for var in variants(case, i, rnd, nvar):
             res, info = replay_case(tab, case, var)
@@ -170,7 +171,8 @@ def run_replay(chk, tab, cases, rnd, limit, nvar):
             shapes[k] = shapes.get(k, 0) + 1
             for key, desc in res:
                 chk.violation(key, desc, {"kind": "gen", "case": case, "var": var, "table": sub_table(tab, case)})
-        if i % max(1, len(chosen) // 4) == 0:
+        if shown < 3 and case["N"] >= 4 and any(q % 4 for q in case["qe"]) and len(set(case["qe"])) > 1:
+            shown += 1
             chk.sample({"case": case, "expected_zero_rows_per_element": [tab.get(case["N"], 0, q)["zero"] for q in case["qe"]]})
     chk.notes["replayed_shift_forms"] = forms
     chk.notes["replayed_shape_pairs"] = shapes
